@@ -443,9 +443,11 @@ impl<'a> UserModel<'a> {
             .worksheet(sheet)?
             .cell(row, column)
             .cloned();
-        // If it is a spill cell we want to save the old value as None, because the value of a spill cell is determined by the anchor cell
-        let old_value = if matches!(old_value, Some(Cell::SpillCell { .. })) {
-            None
+        // The value of a spill cell is determined by the anchor cell, so it is transient;
+        // save its style as an EmptyCell so that undo restores the style index and
+        // evaluate() recreates the spill cell.
+        let old_value = if let Some(Cell::SpillCell { s, .. }) = old_value {
+            Some(Cell::EmptyCell { s })
         } else {
             old_value
         };
@@ -2132,9 +2134,9 @@ impl<'a> UserModel<'a> {
             let mut row_vals = Vec::new();
             for c in column..column + width {
                 let cell = ws.cell(r, c).cloned();
-                // SpillCells are transient — restored by re-evaluation, so store as None.
-                let cell = if matches!(cell, Some(Cell::SpillCell { .. })) {
-                    None
+                // SpillCells are transient — restored by re-evaluation; keep their style.
+                let cell = if let Some(Cell::SpillCell { s, .. }) = cell {
+                    Some(Cell::EmptyCell { s })
                 } else {
                     cell
                 };
